@@ -15,8 +15,11 @@ from . import core
 
 VERIF = os.path.dirname(os.path.dirname(os.path.abspath(__file__)))
 KNOWN_PATH = os.path.join(VERIF, 'known_findings.json')
-EVID_DIR = os.path.join(VERIF, 'evidence')
-REPLAY_DIR = os.path.join(VERIF, 'replays')
+# Runs against anything but /repo itself (tools/mutant.sh, sensitivity experiments) set VSIM_OUT so that
+# they never overwrite the committed evidence, which must come from /repo.
+_OUT = os.environ.get('VSIM_OUT') or VERIF
+EVID_DIR = os.path.join(_OUT, 'evidence')
+REPLAY_DIR = os.path.join(_OUT, 'replays')
 
 ENGINES = {
     'C14': 'vsim.mpsim',
